@@ -1,6 +1,7 @@
 package rules
 
 import (
+	"os"
 	"fmt"
 	"go/token"
 	"go/types"
@@ -470,31 +471,72 @@ func runC16(c *Ctx) {
 				dlc = cl
 			}
 			if MatchCC(&cl.Call, Spec{"github.com/hashicorp/hcl/v2/gohcl", "", "DecodeBody"}) {
-				body = cl
+				// the decoding of the description itself (into AmmoHCL), not of a nested block
+				isAmmo := false
+				SliceAny(cl.Call.Args[2], func(v ssa.Value) bool {
+					if pt, ok := v.Type().Underlying().(*types.Pointer); ok {
+						if _, n := NamedOf(pt.Elem()); n == "AmmoHCL" {
+							isAmmo = true
+						}
+					}
+					return false
+				})
+				if isAmmo || body == nil && g == phf {
+					body = cl
+				}
 			}
 		})
 	}
-	ok := dlc != nil && body != nil && InstrDominates(dlc, body) && DerivesOnly(body.Call.Args[1], false, IsResultOf(dlc, 0))
+	ok := false
+	if dlc != nil && body != nil {
+		// both lifted to ParseHCLFile: the locals are evaluated (here or in a helper) before the body is decoded (here or in
+		// another helper), and the context travels from one to the other
+		a, b := LiftTo(phf, dlc), LiftTo(phf, body)
+		ok = a != nil && b != nil && a != b && InstrDominates(a, b) && DerivesThrough(body.Call.Args[1], IsResultOf(dlc, 0))
+		if a == b && a != nil {
+			ok = InstrDominates(dlc, body) && DerivesThrough(body.Call.Args[1], IsResultOf(dlc, 0))
+		}
+	}
+	if os.Getenv("PV_DEBUG") != "" && dlc != nil && body != nil {
+		a, b := LiftTo(phf, dlc), LiftTo(phf, body)
+		fmt.Fprintln(os.Stderr, "O16.6 debug:", dlc.Parent(), body.Parent(), a, b, DerivesThrough(body.Call.Args[1], IsResultOf(dlc, 0)))
+	}
 	c.Check(ok, "O16.6", fk(phf)+":locals-evaluated-before-the-body", phf.Pos(), "gohcl.DecodeBody is dominated by decodeLocals and receives its evaluation context")
 	// inside decodeLocals
 	var blk, merge, build *ssa.Call
 	var mergeFn *ssa.Function
-	EachInstr(dl, func(in ssa.Instruction) {
-		cl, isC := in.(*ssa.Call)
-		if !isC || cl.Call.StaticCallee() == nil {
-			return
+	// in decodeLocals or in a helper of the package it calls per block (a method of a small scope type, ...); "in the
+	// loop" = inside a loop of its function, or inside a helper that is called from inside the loop of decodeLocals
+	inLoop := func(in ssa.Instruction) bool {
+		if loopHeaderOf(in.Block()) != nil {
+			return true
 		}
-		sc := cl.Call.StaticCallee()
-		switch {
-		case sc == dlb:
-			blk = cl
-		case sc.Name() == "buildHclContext" && loopHeaderOf(cl.Block()) != nil:
-			build = cl
-		case strings.HasPrefix(sc.Name(), "mergeMaps"):
-			merge = cl
-			mergeFn = sc
+		if at := LiftTo(dl, in); at != nil && at != in {
+			return loopHeaderOf(at.Block()) != nil
 		}
-	})
+		return false
+	}
+	for _, g := range FindFuncs(dl, 2, func(*ssa.Function) bool { return true }) {
+		if g == dlb {
+			continue
+		}
+		EachInstr(g, func(in ssa.Instruction) {
+			cl, isC := in.(*ssa.Call)
+			if !isC || cl.Call.StaticCallee() == nil {
+				return
+			}
+			sc := cl.Call.StaticCallee()
+			switch {
+			case sc == dlb:
+				blk = cl
+			case sc.Name() == "buildHclContext" && inLoop(cl):
+				build = cl
+			case strings.HasPrefix(sc.Name(), "mergeMaps"):
+				merge = cl
+				mergeFn = sc
+			}
+		})
+	}
 	if blk == nil || merge == nil || build == nil {
 		c.Anchor("O16.6", "decodeLocalBlock / mergeMaps / buildHclContext calls in the loop of decodeLocals")
 		return
@@ -513,6 +555,24 @@ func runC16(c *Ctx) {
 			for i, p := range mergeFn.Params {
 				if x.X == ssa.Value(p) {
 					fromIdx = i
+				}
+			}
+		case *ssa.Call:
+			// maps.Copy(to, from)
+			if sc := x.Call.StaticCallee(); sc != nil && len(x.Call.Args) == 2 {
+				o := sc
+				if sc.Origin() != nil {
+					o = sc.Origin()
+				}
+				if o.Name() == "Copy" && o.Pkg != nil && strings.HasSuffix(o.Pkg.Pkg.Path(), "maps") {
+					for i, p := range mergeFn.Params {
+						if DerivesOnly(x.Call.Args[0], false, func(v ssa.Value) bool { return v == ssa.Value(p) }) {
+							toIdx = i
+						}
+						if DerivesOnly(x.Call.Args[1], false, func(v ssa.Value) bool { return v == ssa.Value(p) }) {
+							fromIdx = i
+						}
+					}
 				}
 			}
 		}
